@@ -43,7 +43,7 @@ def single_mutations(r):
         if i + 1 < len(toks):
             m = list(toks); m[i], m[i + 1] = m[i + 1], m[i]
             if ok(m) and m != toks:
-                out.append(("swap:" + toks[i], i + 1, m))
+                out.append(("swap:" + toks[i], i + 2, m))
         for t in INSERT + (WITNESS if i % 5 == 0 else []):
             m = toks[:i] + [t] + toks[i:]
             if ok(m):
@@ -172,7 +172,7 @@ def run(ck):
     nbase = len(progs)
     # exhaustive part: all single mutations of a small set of core programs that together use every
     # token of the core vocabulary (greedy cover, deterministic); seeded part: a sample of the rest
-    budget = 1000 if ck.tier == "quick" else 30000
+    budget = 1000 if ck.tier == "quick" else 12000
     by_size = sorted(core, key=lambda v: (len(v["r"]), v["ch"]))
     need, cover = set(t for v in core for t in v["r"]), []
     while need:
@@ -186,15 +186,19 @@ def run(ck):
     ck.rng.shuffle(rest)
     chosen = small + rest[:budget]
     seen_src = set(p["src"] for p in progs)
-    for v, (kind, i, m) in chosen:
-        try:
-            src = render(m, one)
-        except Exception:
-            continue
-        if src in seen_src:
-            continue
-        seen_src.add(src)
-        progs.append({"toks": m, "mut": i, "kind": kind, "src": src, "ch": v["ch"], "layout": one["name"]})
+    # separators written as `; ` and as newlines: the same token sequence can be wrong in one and right in the other
+    two = next((L for L in layouts if L["sep"] == "\n" and L["sp"] == " " and not L["comment"]), one)
+    ncover = len(small)
+    for k, (v, (kind, i, m)) in enumerate(chosen):
+        for L in ((one, two) if k < ncover else ((one,) if k % 2 else (two,))):
+            try:
+                src = render(m, L)
+            except Exception:
+                continue
+            if src in seen_src:
+                continue
+            seen_src.add(src)
+            progs.append({"toks": m, "mut": i, "kind": kind, "src": src, "ch": v["ch"], "layout": L["name"]})
     ck.notes["programs"] = {"core_derivations": len(core), "of_derivations": len(vecs), "base_programs": nbase,
                             "single_mutations_all": len(small) + len(rest), "mutations_run": len(progs) - nbase,
                             "covering_programs_mutated_exhaustively": len(cover), "their_mutations": len(small)}
@@ -208,33 +212,36 @@ def run(ck):
     # ---- the shells
     srcs = [p["src"] for p in progs]
     risky = [wrapper_risky(p["src"], p["mut"] > 0) for p in progs]
+    wrapped = {lang: run_wrapped(SHELL[lang], srcs) for lang in LANGS}
+    # real `-n` processes for BOTH shells on the same programs, in this order of priority, up to a cap
+    # (process creation is the bottleneck): every disagreement seen through the wrapper, the validation
+    # sample, then the programs that are risky for the wrapper (unmutated ones first)
+    cap = 900 if ck.tier == "quick" else 2500
+    unanswered = set(i for i in range(len(progs)) if any(wrapped[l][i] is None for l in LANGS))
+    dis = [i for i, p in enumerate(progs) if not risky[i] and i not in unanswered
+           and any(wrapped[l][i] != p["impl"][l]["ok"] for l in LANGS)]
+    cand = [i for i in range(len(progs)) if not risky[i] and i not in unanswered and i not in set(dis)]
+    ck.rng.shuffle(cand)
+    sample = cand[:60 if ck.tier == "quick" else 600]
+    rk = [i for i in range(len(progs)) if risky[i] or i in unanswered]
+    ck.rng.shuffle(rk)
+    rk.sort(key=lambda i: progs[i]["mut"] > 0)
+    room = max(0, cap - len(dis) - len(sample))
+    dropped = set(rk[room:])
+    order = sorted(set(dis) | set(sample) | set(rk[:room]))
+    for i in dropped:
+        progs[i]["unjudged"] = set(LANGS)
     for lang in LANGS:
         sh = SHELL[lang]
-        wrapped = run_wrapped(sh, srcs)
-        # real `-n` processes, in this order of priority, up to a cap (process creation is the bottleneck):
-        # every disagreement seen through the wrapper, the validation sample, then the risky programs
-        cap = 700 if ck.tier == "quick" else 6000
-        dis = [i for i, p in enumerate(progs) if not risky[i] and wrapped[i] is not None and wrapped[i] != p["impl"][lang]["ok"]]
-        cand = [i for i in range(len(progs)) if not risky[i] and wrapped[i] is not None and i not in set(dis)]
-        ck.rng.shuffle(cand)
-        sample = cand[:60 if ck.tier == "quick" else 600]
-        rk = [i for i in range(len(progs)) if risky[i] or wrapped[i] is None]
-        ck.rng.shuffle(rk)
-        rk.sort(key=lambda i: progs[i]["mut"] > 0)       # unmutated programs first
-        room = max(0, cap - len(dis) - len(sample))
-        dropped = set(rk[room:])
-        order = sorted(set(dis) | set(sample) | set(rk[:room]))
         real = dict(zip(order, run_real(sh, [srcs[i] for i in order])))
-        for i in dropped:
-            progs[i].setdefault("unjudged", set()).add(lang)
-        bad = [i for i in sample if real[i]["ok"] != wrapped[i]]
+        bad = [i for i in sample if real[i]["ok"] != wrapped[lang][i]]
         ck.notes.setdefault("shell_runs", {})[lang] = {"wrapped_in_one_process": len(srcs), "real_n_runs": len(order),
                                                        "of_which_wrapper_validation": len(sample), "wrapper_mismatches": len(bad),
                                                        "risky_for_the_wrapper": len(rk), "risky_not_judged_cap": len(dropped)}
         if bad:
             raise vlib.Inconclusive("the function wrapper changes %s's verdict for %s" % (sh, json.dumps([srcs[i] for i in bad[:3]])))
         for i, p in enumerate(progs):
-            p.setdefault("shell", {})[lang] = real[i] if i in real else {"ok": bool(wrapped[i]), "eofwarn": False, "err": ""}
+            p.setdefault("shell", {})[lang] = real[i] if i in real else {"ok": bool(wrapped[lang][i]), "eofwarn": False, "err": ""}
     lap("shells")
     # bash's own end-of-file warning is evidence for both variants (dash says nothing)
     # ---- observations for TLC: every unmutated program and every disagreement
